@@ -128,6 +128,19 @@ def mk_input_graph(n, edges, src):
         for u, v in reversed(edges):
             G.add_edge(v, u)
         return G
+    if src == 'grown':
+        # a graph object with a history: created smaller, grown by two (or
+        # more) vertices in one step, an extra edge added and removed again
+        from cnfgen.graphs import Graph
+        G = Graph(max(0, n - 2))
+        G.update_vertex_number(n)
+        if n >= 2:
+            G.add_edge(1, n)
+        for u, v in edges:
+            G.add_edge(u, v)
+        if n >= 2 and (1, n) not in edges:
+            G.remove_edge(n, 1)
+        return G
     return scope.mk_graph(n, edges)
 
 
@@ -1045,7 +1058,8 @@ def cases(tier, seed):
             yield {'fam': 'auto', 'n': 5, 'E': L(es)}
     # ---- variants: OPB class / networkx input / reversed insertion ------
     vn = 4 if thorough else 3
-    variants = [{'cls': 'OPB'}, {'src': 'nx'}, {'src': 'rev'}, {'cls': 'OPB', 'src': 'nx'}]
+    variants = [{'cls': 'OPB'}, {'src': 'nx'}, {'src': 'rev'}, {'cls': 'OPB', 'src': 'nx'},
+                {'src': 'grown'}]
     small = list(scope.simple_graphs_upto(3))
     for var in variants:
         for n, es in scope.simple_graphs_upto(4 if var == {'cls': 'OPB'} else vn):
